@@ -136,6 +136,43 @@ func c12SameBytes(r *an.Run, m *runModel) {
 		}
 	}
 	r.Check(same, short(m.run)+"|same-value", m.run.Pos(), "the bytes written in place, printed by --print-only and diffed by --diff are the same SSA value (%d sinks: %s)", len(sinks), joinSorted(kinds))
+	// ... and a module function that is handed them writes them unchanged: every Write into a file it
+	// performs (itself or in its helpers) writes the parameter that carries them
+	for _, s := range sinks {
+		h := an.StaticCallee(s.call)
+		if h == nil || !an.InModule(h) || h.Blocks == nil || h == r.P.Func(mainP, "mainCmd.preview") {
+			continue
+		}
+		pi := -1
+		for i, a := range s.call.Common().Args {
+			if a == s.bytes && i < len(h.Params) {
+				pi = i
+			}
+		}
+		if pi < 0 {
+			continue
+		}
+		nw := 0
+		for _, g := range helperGroup(h, 2) {
+			for _, c := range an.CallsTo(g, "(*os.File).Write", "(*os.File).WriteString", "os.WriteFile", "(io.Writer).Write", "(*bufio.Writer).Write") {
+				nw++
+				a := c.Common().Args
+				w := a[len(a)-1]
+				if an.IsCallTo(c, "os.WriteFile") {
+					w = a[1]
+				}
+				same := an.Unwrap(w) == ssa.Value(h.Params[pi])
+				if g != h {
+					if p, ok := an.Unwrap(w).(*ssa.Parameter); ok && an.Actual(p) != nil {
+						same = an.Unwrap(an.Actual(p)) == ssa.Value(h.Params[pi])
+					}
+				}
+				r.Check(same, short(h)+"|writes-its-argument", c.Pos(), "%s writes exactly the bytes it was handed (the bytes the other output modes emit): nothing is converted or appended on the way to disk", short(h))
+			}
+		}
+		r.Count("writes inside the in-place sink", nw)
+	}
+	r.Min("writes inside the in-place sink", 1)
 	preview := r.P.Func(mainP, "mainCmd.preview")
 	for _, c := range an.Calls(m.run) {
 		if sc := an.StaticCallee(c); sc != nil && sc == preview {
